@@ -70,19 +70,21 @@ fn c07_err_empty_leaf() {
     kani::cover!(c == 2 && v.is_nan());
 }
 
+// Wrong query dimension.  The index structs are built through their public constructors and queried directly (behind
+// the Box<dyn NearestNeighbourIndex> returned by from_batch the model checker cannot see that the shape test is decided
+// and explores the answer branch: no result in 10 min); from_batch_with_leaf_size is `new` + Box::new.
+// The guard path is loop-free; #[kani::unwind] only stops the symbolic execution of the (infeasible, but not
+// syntactically dead) answer branch — its unwinding assertions are proved unreachable.
 // Query lengths are concrete (a symbolic length makes the allocation of the query itself intractable): for a batch
-// with c columns the lengths c-1 and c+1, and the empty query.
-// linear scan: a well-formed build succeeds for every leaf size >= 1; every query whose length differs from the batch's
-// column count is refused by both query kinds, for every k and radius
-// @unit class=complete tier=quick mem=light timeout=300 fns=linfa_nn::LinearSearch::from_batch_with_leaf_size,linfa_nn::LinearSearchIndex::new,linfa_nn::LinearSearchIndex::k_nearest,linfa_nn::LinearSearchIndex::within_range
+// with c columns the lengths c-1 and c+1, and the empty query; k and the radius are arbitrary.
+// @unit class=complete tier=quick mem=light timeout=300 fns=linfa_nn::LinearSearchIndex::new,linfa_nn::LinearSearchIndex::k_nearest,linfa_nn::LinearSearchIndex::within_range
 #[kani::proof]
+#[kani::unwind(4)]
 #[kani::stub(alloc::fmt::format, fmt_stub)]
 fn c07_err_wrong_dim_linear() {
     let v: [f32; 2] = kani::any();
-    let leaf: usize = kani::any();
-    kani::assume(leaf >= 1);
     let batch: Array2<f32> = Array2::from_shape_vec((1, 2), vec![v[0], v[1]]).unwrap();
-    let idx = match LinearSearch.from_batch_with_leaf_size(&batch, leaf, L2Dist) { Ok(i) => i, Err(_) => { assert!(false); return; } };
+    let idx = match LinearSearchIndex::new(&batch, L2Dist) { Ok(i) => i, Err(_) => { assert!(false); return; } };
     let k: usize = kani::any();
     let r: f32 = kani::any();
     let q0: Array1<f32> = Array1::zeros(0);
@@ -94,45 +96,51 @@ fn c07_err_wrong_dim_linear() {
     assert!(matches!(idx.within_range(q1.view(), r), Err(NnError::WrongDimension)));
     assert!(matches!(idx.k_nearest(q3.view(), k), Err(NnError::WrongDimension)));
     assert!(matches!(idx.within_range(q3.view(), r), Err(NnError::WrongDimension)));
-    kani::cover!(k == 0 && leaf == 1);
+    kani::cover!(k == 0);
     kani::cover!(k > 1 && r.is_nan());
 }
 
-// ball tree: the guard is BallTreeIndex::nn_helper's; index over an EMPTY batch (0 x 2, no tree to build)
-// @unit class=complete tier=quick mem=light timeout=300 fns=linfa_nn::BallTree::from_batch_with_leaf_size,linfa_nn::BallTreeIndex::new,linfa_nn::BallTreeIndex::k_nearest,linfa_nn::BallTreeIndex::within_range
+// a well-formed batch with any leaf size >= 1 builds (linear scan ignores the leaf size otherwise)
+// @unit class=complete tier=quick mem=light timeout=300 fns=linfa_nn::LinearSearch::from_batch_with_leaf_size,linfa_nn::LinearSearchIndex::new
 #[kani::proof]
+#[kani::unwind(4)]
 #[kani::stub(alloc::fmt::format, fmt_stub)]
-fn c07_err_wrong_dim_balltree_empty() {
+fn c07_build_ok_linear() {
+    let v: [f32; 2] = kani::any();
     let leaf: usize = kani::any();
-    kani::assume(leaf >= 1);
-    let batch: Array2<f32> = Array2::zeros((0, 2));
-    let idx = match BallTree.from_batch_with_leaf_size(&batch, leaf, L1Dist) { Ok(i) => i, Err(_) => { assert!(false); return; } };
-    let k: usize = kani::any();
-    let r: f32 = kani::any();
-    let q0: Array1<f32> = Array1::zeros(0);
-    let q1: Array1<f32> = Array1::zeros(1);
-    let q3: Array1<f32> = Array1::zeros(3);
-    assert!(matches!(idx.k_nearest(q0.view(), k), Err(NnError::WrongDimension)));
-    assert!(matches!(idx.within_range(q0.view(), r), Err(NnError::WrongDimension)));
-    assert!(matches!(idx.k_nearest(q1.view(), k), Err(NnError::WrongDimension)));
-    assert!(matches!(idx.within_range(q1.view(), r), Err(NnError::WrongDimension)));
-    assert!(matches!(idx.k_nearest(q3.view(), k), Err(NnError::WrongDimension)));
-    assert!(matches!(idx.within_range(q3.view(), r), Err(NnError::WrongDimension)));
-    // a query of the right length on the empty index is answered with the empty list, not an error
-    let q2: Array1<f32> = Array1::zeros(2);
-    match idx.k_nearest(q2.view(), k) { Ok(v) => assert!(v.is_empty()), Err(_) => assert!(false) }
-    kani::cover!(k == 0 && leaf == 1);
-    kani::cover!(k > 1 && r.is_nan());
+    let batch: Array2<f32> = Array2::from_shape_vec((1, 2), vec![v[0], v[1]]).unwrap();
+    let r = LinearSearch.from_batch_with_leaf_size(&batch, leaf, L2Dist);
+    assert!(r.is_ok() == (leaf >= 1));
+    if let Err(e) = r { assert!(matches!(e, BuildError::EmptyLeaf)); }
+    kani::cover!(leaf == 1);
+    kani::cover!(leaf == 0);
 }
 
 // kd-tree over an EMPTY batch (0 x 2): the dimension check is the external kdtree crate's, mapped by From<ErrorKind>
-// @unit class=complete tier=thorough mem=light timeout=600 fns=linfa_nn::KdTree::from_batch_with_leaf_size,linfa_nn::KdTreeIndex::new,linfa_nn::KdTreeIndex::k_nearest,linfa_nn::KdTreeIndex::within_range
+// @unit class=complete tier=thorough mem=light timeout=600 fns=linfa_nn::KdTreeIndex::new,linfa_nn::KdTreeIndex::k_nearest,linfa_nn::KdTreeIndex::within_range
 #[kani::proof]
 #[kani::unwind(5)]
 #[kani::stub(alloc::fmt::format, fmt_stub)]
 fn c07_err_wrong_dim_kdtree_empty() {
     let batch: Array2<f32> = Array2::zeros((0, 2));
-    let idx = match KdTree.from_batch_with_leaf_size(&batch, 1, L1Dist) { Ok(i) => i, Err(_) => { assert!(false); return; } };
+    let idx = match KdTreeIndex::new(&batch, 1, L1Dist) { Ok(i) => i, Err(_) => { assert!(false); return; } };
+    let q1: Array1<f32> = Array1::zeros(1);
+    let q3: Array1<f32> = Array1::zeros(3);
+    assert!(matches!(idx.k_nearest(q1.view(), 1), Err(NnError::WrongDimension)));
+    assert!(matches!(idx.within_range(q1.view(), 1.0), Err(NnError::WrongDimension)));
+    assert!(matches!(idx.k_nearest(q3.view(), 1), Err(NnError::WrongDimension)));
+    assert!(matches!(idx.within_range(q3.view(), 1.0), Err(NnError::WrongDimension)));
+    kani::cover!(true);
+}
+
+// kd-tree holding ONE point (1 x 2): attempt, 10 min cap
+// @unit class=bounded tier=thorough mem=heavy timeout=600 bound="n=1,dim=2" fns=linfa_nn::KdTreeIndex::new,linfa_nn::KdTreeIndex::k_nearest,linfa_nn::KdTreeIndex::within_range
+#[kani::proof]
+#[kani::unwind(5)]
+#[kani::stub(alloc::fmt::format, fmt_stub)]
+fn c07_err_wrong_dim_kdtree_n1() {
+    let batch: Array2<f32> = Array2::from_shape_vec((1, 2), vec![1.0, 2.0]).unwrap();
+    let idx = match KdTreeIndex::new(&batch, 1, L1Dist) { Ok(i) => i, Err(_) => { assert!(false); return; } };
     let q1: Array1<f32> = Array1::zeros(1);
     let q3: Array1<f32> = Array1::zeros(3);
     assert!(matches!(idx.k_nearest(q1.view(), 1), Err(NnError::WrongDimension)));
